@@ -184,6 +184,7 @@ inst("dw3x3s2", "c")(lambda n: _conv_like(n, "dw", 3, 2, PAD_SAME, "RELU6"))
 inst("dw5x5v", "t")(lambda n: _conv_like(n, "dw", 5, 1, PAD_VALID, "NONE"))
 inst("dw3x3_dm2", "t")(lambda n: _conv_like(n, "dw", 3, 1, PAD_SAME, "NONE", dm=2) if n.T(n.cur)["shape"][-1] <= 16 else False)
 inst("conv_dynw")(lambda n: _conv_like(n, "conv", 1, 1, PAD_SAME, "NONE", dyn=True))
+inst("conv_dynw_nobias")(lambda n: _conv_like(n, "conv", 1, 1, PAD_SAME, "NONE", dyn=True, bias=False))
 
 
 @inst("fc")
@@ -574,7 +575,7 @@ SIGMA_Q = [
     "conv1x1", "conv3x3", "conv3x3s2", "conv3x3v_relu6", "conv3x3d2", "dw3x3", "dw3x3s2", "fc", "maxpool2x2",
     "avgpool2x2", "avgpool3x3same", "add_res", "add_const", "add_scalar", "add_bcast_h", "sub_const", "mul_const",
     "min_const", "relu", "leaky_relu", "logistic", "tanh", "hard_swish", "reshape", "concat", "split", "strided_slice",
-    "pad_hw", "pad_c", "mean", "resize_nn2", "quantize", "tconv_s2", "softmax", "cpu_d2s", "cpu_custom", "conv_dynw", "cpu_neg", "tap", "branch_cpu", "branch_npu",
+    "pad_hw", "pad_c", "mean", "resize_nn2", "quantize", "tconv_s2", "softmax", "cpu_d2s", "cpu_custom", "conv_dynw", "cpu_neg", "tap", "branch_cpu", "branch_npu", "conv_dynw_nobias",
 ]
 SIGMA_T = SIGMA_Q + [n for n, (_, tags) in INSTANCES.items() if "t" in tags]
 SIGMA_C = [n for n, (_, tags) in INSTANCES.items() if "c" in tags]
